@@ -39,6 +39,8 @@ def check (j : Json) : Res := Id.run do
   if !J.boolOf j "accepted" then
     return { stats := [s!"sparams.{cls}.refused"] }
   let mut r : Res := { stats := [s!"sparams.{cls}.accepted"] }
+  if J.has j "books_unchanged" && !J.boolOf j "books_unchanged" then
+    r := { r with findings := ("diverge", "C07", "sparams:period_change_touches_the_books", s!"the parameter change {old} -> {new} itself changed the withdraw queue or the providers' books (C07P.period_change_does_not_touch_the_queue)") :: r.findings }
   if J.has j "skipped" then
     return { r with stats := "sparams.no_provider" :: r.stats }
   let stored := J.intOf j "stored"
